@@ -728,10 +728,33 @@ def sym_len(x):
     return _real_len(x)
 
 
-def sym_int(x=0, *a):
-    if _real_isinstance(x, SymInt):
-        return x
-    return _real_int(x, *a)
+class _SymIntCtor:
+    """stands for the name `int` in the package's modules: int(x) keeps a symbolic integer symbolic; int.from_bytes of received bytes of
+    known length is the big-endian combination of the (symbolic) bytes"""
+
+    def __call__(self, x=0, *a):
+        if _real_isinstance(x, SymInt):
+            return x
+        return _real_int(x, *a)
+
+    @staticmethod
+    def from_bytes(b, byteorder='big', *, signed=False):
+        if _real_isinstance(b, SymSeq):
+            if byteorder != 'big' or signed:
+                raise Refuse('int.from_bytes: only big-endian unsigned')
+            if b.tail is not None:
+                raise Unmodelled('int.from_bytes of bytes of unknown length')
+            v = 0
+            for x in b.elems:
+                v = v * 256 + x
+            return v
+        return _real_int.from_bytes(b, byteorder, signed=signed)
+
+    def __repr__(self):
+        return "<class 'int'>"
+
+
+sym_int = _SymIntCtor()
 
 
 def sym_hex(x):
